@@ -321,3 +321,5 @@ func normDigits(s string) string {
 	}
 	return b.String()
 }
+
+func hex64(h uint64) string { return fmt.Sprintf("%016x", h) }
